@@ -282,6 +282,14 @@ def run(ctx):
         addr = S('addr', type='str')
         v, _ = ev.call_function('helper.bech32_decode_address', [addr])
         exp = T.raw_op('BYTES', T.getitem(T.raw_op('BECH32DEC', T.slice_(addr, T.const(0), T.const(2)), addr), T.const(1)))
+        # decode() may hand out a NamedTuple record: its fields read by name are the tuple positions
+        fields = {}
+        for ci_ in p.classes.values():
+            if ci_.module.name.endswith('bech32') and ci_.is_record and any(b.split('.')[-1] == 'NamedTuple' for b in ci_.base_names):
+                fields = {nm: i_ for i_, (nm, _d) in enumerate(ci_.fields)}
+        if fields:
+            dec = T.raw_op('BECH32DEC', T.slice_(addr, T.const(0), T.const(2)), addr)
+            v = T.subst(v, {T.raw_op('ATTR', dec, T.const(nm)): T.getitem(dec, T.const(i_)) for nm, i_ in fields.items()})
         same_term(ob, v, exp, 'bech32_decode_address decodes with the address\'s own two-character prefix', p.get_function('helper.bech32_decode_address').where)
         enc = p.get_function('bech32.encode')
         for q in ('helper.h160_to_p2wpkh_address', 'helper.h256_to_p2wsh_address'):
